@@ -33,7 +33,8 @@ func (r *Runner) bashTest(ctx context.Context, expr syntax.TestExpr, classic boo
 			str := r.literal(x.X.(*syntax.Word))
 			yw := x.Y.(*syntax.Word)
 			if classic { // test, [
-				lit := r.literal(yw)
+				// The words hold arguments which were already expanded.
+				str, lit := x.X.(*syntax.Word).Lit(), yw.Lit()
 				if (str == lit) == (x.Op != syntax.TsNoMatch) {
 					return "1"
 				}
